@@ -915,6 +915,20 @@ where
             if fl.hang && reproduced < runs {
                 // a hang that does not recur every time is not reported as a violation
                 pr.inconclusive += 1;
+                let first = fl.msg.lines().next().unwrap_or("");
+                eprintln!(
+                    "[note] part {}: hang-type failure `{}` at index {} recurred {}/{} times on re-execution - not reported ({})",
+                    self.name,
+                    fl.sig,
+                    index,
+                    reproduced,
+                    runs,
+                    &first[..first.len().min(300)]
+                );
+                // kept for diagnosis (not a replay file of a violation)
+                let mut f2 = fl.clone();
+                f2.sig = format!("unconfirmed-{}", f2.sig);
+                let _ = self.save_replay(rep, &case, &f2, index);
                 continue;
             }
             let path = self.save_replay(rep, &case, &fl, index);
